@@ -78,6 +78,15 @@ func (h *hashRanges) addElement(elHash uint64) {
 	}
 }
 
+// updateElement marks the leaf range of an already counted element as dirty
+func (h *hashRanges) updateElement(elHash uint64) {
+	rng := h.topRange
+	for rng.isDivided {
+		rng = h.getBottomRange(rng, elHash)
+	}
+	h.dirty[rng] = struct{}{}
+}
+
 func (h *hashRanges) removeElement(elHash uint64) {
 	rng := h.topRange
 	rng.elements--
